@@ -28,8 +28,13 @@ def run(ctx):
         p = subprocess.run(cmd, env=env, capture_output=True, text=True, timeout=3600 if ctx.tier == 'thorough' else 600)
         with open(out) as f:
             doc = json.load(f)
-    except Exception as e:      # the stand-in itself failed: that is not a verdict about the property
-        ctx.bounded.append({'label': 'bounded', 'error': 'stand-in did not run: %s' % e, 'evaluations': 0,
+    except Exception as e:      # the stand-in itself failed: that is not a verdict about the property (exit 3 in conclude)
+        tail = ''
+        try:
+            tail = ' | ' + ' / '.join((p.stderr or '').strip().splitlines()[-3:])
+        except Exception:
+            pass
+        ctx.bounded.append({'label': 'bounded', 'error': 'stand-in did not run: %s%s' % (e, tail), 'evaluations': 0,
                             'distinct_nontrivial': 0, 'rule': '', 'violations': []})
         return
     finally:
